@@ -269,6 +269,9 @@ def good_frames(clock, rng, pay, n, secured=None):
     return out
 
 
+NAMED_ST = tuple(range(12)) + (15,)      # EN 302 636-4-1 clause 6.3
+
+
 def headers_valid(gn: bytes) -> bool:
     """Strict reference view: would a conformant receiver process the GN headers of this unsecured frame?"""
     try:
@@ -284,9 +287,9 @@ def headers_valid(gn: bytes) -> bool:
         return False
     x = p["ext"]
     for pv in (x.get("so_pv"), x.get("de_pv")):
-        if pv and (pv["addr"]["st"] > 12):
+        if pv and (pv["addr"]["st"] not in NAMED_ST):
             return False
-    if "req_addr" in x and x["req_addr"]["st"] > 12:
+    if "req_addr" in x and x["req_addr"]["st"] not in NAMED_ST:
         return False
     if "area" in x:
         a = x["area"]
@@ -341,6 +344,15 @@ def bad_frames(rng, goods, pay, secured, clock):
             m[rng.randrange(len(m))] ^= 1 << rng.randrange(8)
             body = W.enc_btp_b(port, 0) + bytes(m[:rng.choice((len(m), len(m) // 2, 3))])
             out.append((f"mutated-payload[{port}]", eth(W.enc_packet(bh, {"nh": 2, "ht": W.HT_TSB, "hst": 0, "tc": tc0, "mobile": 1, "pl": len(body), "mhl": 1}, {"so_pv": pv}, body))))
+    # a damaged frame of a sender the station also hears good frames from: its source time stamp is far ahead (flipped high
+    # bit, sender clock fault) and its payload is junk; the GN headers are valid, so both twins see it -- what follows from
+    # that sender must still be handed up
+    for srcid in (1, 2, 3):
+        ahead = rng.choice((3000, 3_600_000, (1 << 30), (1 << 31) - 5000))
+        pvk = {"addr": {"m": 0, "st": 5, "mid": mid_of(100 + srcid)}, "tst": (tst_of(clock.now()) + ahead) % (1 << 32), "lat": LAT + 500 * srcid, "lon": LON + 500, "pai": 1, "s": 100, "h": 900}
+        body = W.enc_btp_b(2001, 0) + bytes(rng.randrange(256) for _ in range(25))
+        out.append(("undecodable-payload-of-a-known-sender[source-time-ahead]",
+                    eth(W.enc_packet(bh, {"nh": 2, "ht": W.HT_TSB, "hst": 0, "tc": tc0, "mobile": 1, "pl": len(body), "mhl": 1}, {"so_pv": pvk}, body), src=mid_of(100 + srcid))))
     for n in (0, 1, 3):
         out.append(("btp-header-truncated", eth(W.enc_packet(bh, {"nh": 2, "ht": W.HT_TSB, "hst": 0, "tc": tc0, "mobile": 1, "pl": n, "mhl": 1}, {"so_pv": pv}, b"\x07\xd1\x00"[:n]))))
     # mutations of real packets
@@ -410,6 +422,7 @@ def run_case(c, res, pk):
             ctx = {"cfg": {k: v for k, v in c.items() if not k.startswith("_")}, "stream": ctx_stream[-25:], "frame": f[:200]}
             res.count("frames_fed")
             before = (A.snapshot(), A.outputs()) if kind in ("bad", "ignored") else None
+            n_ind_before = len(A.gn_ind)
             r = A.feed(f)
             res.count("liveness_checks")
             if c["loop"] == "cv2x":
@@ -441,6 +454,17 @@ def run_case(c, res, pk):
                     res.violation(f"C04:{'bad' if kind == 'bad' else 'ignored'}-frame-had-an-effect[{lab.split('[')[0]}][{','.join(what)}]",
                                   f"'{lab}' frame changed {what}", ctx)
                 continue
+            # (packets with a sequence number are judged only while no header-valid mutation of a real packet -- which may carry
+            # the same source and sequence number and so makes the genuine copy a duplicate -- has been fed)
+            mutated_seen = any(k_ == "headervalid" and "real-packet" in l_ for (k_, l_, _) in ctx_stream[:-1])
+            if kind == "good" and (lab in ("cam", "vam", "denm", "generic") or (lab in ("gbc-cam", "guc-me") and not mutated_seen)):
+                # absolute oracle: a well-formed frame addressed to / covering this station is handed up once, whatever came before
+                res.count("good_frames_delivery_judged")
+                n_now = len(A.gn_ind)
+                if n_now != n_ind_before + 1:
+                    prior = sorted({l_.split("[")[0] for (k_, l_, _) in ctx_stream[:-1] if k_ != "good"})
+                    tag = "[after-a-frame-with-source-time-ahead]" if any("source-time-ahead" in l_ for (_, l_, _) in ctx_stream[:-1]) else ""
+                    res.violation(f"C04:good-frame-not-handed-up-exactly-once[{lab}]{tag}", f"'{lab}' frame: {n_now - n_ind_before} indications; earlier non-good frames: {prior}", ctx)
             r2 = T.feed(f)
             if r2 == "watchdog":
                 res.inconc("wall-clock watchdog while feeding a frame to the twin")
